@@ -147,12 +147,42 @@ def run_case(c):
         el = float(np.abs(np.sort(lam_rep) - np.sort(lam)).max())
         if el > 1e-8 * max(np.abs(lam).max(), fscale):
             viol.append({"kind": "freq_mismatch", "msg": "frequencies^2/factor^2 differ from eigenvalues of the lattice sum by %.3e at %s" % (el, kind), "qkind": kind})
+    # the same crystal with the atoms of the primitive cell listed in another order (the public positions_to_reorder argument of Primitive /
+    # get_primitive: its primitive-to-supercell map is then not ascending), the dynamical matrix built the way a direct user of the module builds it
+    reorder = {}
+    if len(pr) > 1:
+        from phonopy.harmonic.dynamical_matrix import get_dynamical_matrix
+        from phonopy.structure.cells import Primitive
+
+        perm = lrng.permutation(len(pr))
+        if np.array_equal(perm, np.arange(len(pr))):
+            perm = perm[::-1]
+        pr2 = Primitive(sc, pr.primitive_matrix, symprec=ph.symmetry.tolerance, store_dense_svecs=c["store_dense_svecs"], positions_to_reorder=np.array(pr.scaled_positions)[perm])
+        p2s2 = np.array(pr2.p2s_map)
+        reorder = {"reordered_primitive": 1, "reordered_p2s_not_ascending": int((np.diff(p2s2) < 0).any())}
+        if sorted(p2s2.tolist()) != sorted(p2s.tolist()) or not np.allclose(np.array(pr2.masses), np.array(pr.masses)[perm]):
+            viol.append({"kind": "reordered_primitive", "msg": "Primitive(positions_to_reorder=permuted positions) does not list the same atoms in the requested order: p2s_map %s vs %s permuted by %s" % (
+                p2s2.tolist(), p2s.tolist(), perm.tolist())})
+        else:
+            # (a square array IS the full layout for phonopy, which tells the layouts apart by shape: when the supercell is the primitive cell itself
+            # the rows re-ordered by p2s_map would not be "compact" constants but other full constants)
+            dm2 = get_dynamical_matrix(np.array(fc if c["full"] or len(sc) == len(pr2) else fc[p2s2], dtype="double", order="C"), sc, pr2)
+            for kind, q in qs:
+                D = models.exact_dm(pr2.cell, pr2.scaled_positions, pr2.symbols, pr2.masses, cutoff, q, r0=r0)
+                sD = max(np.abs(D).max(), fscale)
+                for lang in ("C", "Py"):
+                    dm2.run(q, lang=lang)
+                    e = float(np.abs(np.array(dm2.dynamical_matrix) - D).max())
+                    if not np.isfinite(e) or e > TOL * max(sD, 1e-12):
+                        viol.append({"kind": "dm_mismatch", "msg": "primitive cell with atoms in the order %s (p2s_map %s): D(q) via %s differs from the lattice sum by %.3e (max|D| %.3e) at %s q=%s" % (
+                            perm.tolist(), p2s2.tolist(), lang, e, sD, kind, np.round(q, 4).tolist()), "path": lang, "qkind": kind, "full": c["full"], "dense": c["store_dense_svecs"], "regime": c["regime"],
+                            "reordered_primitive": True})
     nontrivial = bool(maxD > 0 and shells >= 2 and (c["regime"] == "short" or cutoff > 0.5 * Lmin))
     key = "%s|%s|%s|%s|%s|%s|%s" % (c["crystal"]["name"], c["crystal"]["order"], c["smat"], c["pmat"], c["regime"], c["full"], c["store_dense_svecs"])
     multi = ph.primitive.get_smallest_vectors()[1]
     maxmult = int(np.max(multi[..., 0])) if multi.ndim == 3 else int(np.max(multi))
     return {"viol": viol[:6], "nontrivial": nontrivial, "key": key, "evals": len(qs) * 3,
-            "obs": {"q_" + k: v for k, v in nq.items()} | {"qlayout_" + qkind: 1, "fclayout_" + fckind: 1, "regime_" + c["regime"]: 1, "compact": int(not c["full"]), "sparse_svecs": int(not c["store_dense_svecs"]),
+            "obs": {"q_" + k: v for k, v in nq.items()} | reorder | {"qlayout_" + qkind: 1, "fclayout_" + fckind: 1, "regime_" + c["regime"]: 1, "compact": int(not c["full"]), "sparse_svecs": int(not c["store_dense_svecs"]),
                                                             "ws_boundary_multiplicity_gt1": int(maxmult > 1), "shells": [shells]},
             "maxerr": maxerr,
             "sample": {"crystal": c["crystal"], "smat": c["smat"], "pmat": pm, "cutoff": cutoff, "Lmin": Lmin, "shells": shells, "regime": c["regime"],
